@@ -2,6 +2,10 @@
 from ..core import Report
 from . import runlevel
 
+# case kinds of corpus/ entries (failing inputs of past regressions) that this module replays on every run
+CORPUS_KINDS = ('ctl_run',)
+
+
 
 def budget_stress_specs(ctx):
     """Budgets at and just above the size of the initial design, every noise mode, default and small noise_final_samples, small max_iter."""
@@ -18,6 +22,15 @@ def budget_stress_specs(ctx):
                 sp["options"]["noise_final_samples"] = rng.choice([1, 3])
             if rng.random() < 0.2:
                 sp["options"]["max_iter"] = rng.choice([1, 2, 3])
+            specs.append(sp)
+    # max_iter binding (budget ample), with the usual and with small search_n_try (search and poll in the same loop pass)
+    for mi in ((1, 2, 4) if ctx.quick else (1, 2, 3, 4, 6, 9)):
+        for nt in (None, 1, 0):
+            mode = rng.choice(["det", "det", "decl"])
+            sp = gen.make_spec(rng, D=rng.choice([1, 2]), geom="box", mode=mode, cons=None, target="quad")
+            sp["options"] = {"n_search": 32, "max_fun_evals": 200, "max_iter": mi, "noise_final_samples": 0}
+            if nt is not None:
+                sp["options"]["search_n_try"] = nt
             specs.append(sp)
     return specs
 
